@@ -471,6 +471,7 @@ def run_C01(ctx):
     recs = exec_cases(ctx, "isa", ["alu", "jmp", "far", "farcall", "mem", "cfg", "calls"], rate, timeout=1500)
     recs += exec_cases(ctx, "frame", ["frame"], FRAME_RATE if ctx.quick else 1, timeout=1500)
     recs += exec_cases(ctx, "flow", ["flow"], 1, timeout=1500)
+    recs += exec_cases(ctx, "pairs", ["pairs"], 3 if ctx.quick else 1, timeout=1500)
     ctx.nontrivial = len({json.dumps(r["case"]["id"]) for r in recs})
     replay_exec(ctx, "isa", recs, ["interp"])
     # direction A: random terminating programs, every step validated
@@ -488,6 +489,7 @@ def run_C03(ctx):
     recs = exec_cases(ctx, "isa", ["alu", "jmp", "far", "farcall", "mem", "cfg", "calls"], rate, timeout=1500)
     recs += exec_cases(ctx, "frame", ["frame"], FRAME_RATE if ctx.quick else 1, timeout=1500)
     recs += exec_cases(ctx, "flow", ["flow"], 1, timeout=1500)
+    recs += exec_cases(ctx, "pairs", ["pairs"], 3 if ctx.quick else 1, timeout=1500)
     ctx.nontrivial = len({json.dumps(r["case"]["id"]) for r in recs})
     rep = replay_exec(ctx, "isa", recs, ["jit"], pair="interp")
     ctx.disagreements_checked = rep.get("disagreements_checked", 0)
@@ -501,6 +503,7 @@ def run_C04(ctx):
     recs = exec_cases(ctx, "isa", ["alu", "jmp", "far", "farcall", "mem", "calls", "cfg"], rate, timeout=1500)
     recs += exec_cases(ctx, "frame", ["frame"], FRAME_RATE if ctx.quick else 1, timeout=1500)
     recs += exec_cases(ctx, "flow", ["flow"], 1, timeout=1500)
+    recs += exec_cases(ctx, "pairs", ["pairs"], 3 if ctx.quick else 1, timeout=1500)
     ctx.nontrivial = len({json.dumps(r["case"]["id"]) for r in recs})
     ctx.extra["programs_with_local_calls_must_be_refused"] = sum(
         1 for r in recs if any(sg[1][0] == 0x85 and sg[1][2] == 1 for sg in r["case"]["prog"]))
@@ -551,6 +554,7 @@ def run_C08(ctx):
     rate = 3 if ctx.quick else 1
     recs = exec_cases(ctx, "helpers", ["helpers", "cfg"], rate, timeout=1500)
     recs += exec_cases(ctx, "flow", ["flow"], 1, timeout=1500)
+    recs += exec_cases(ctx, "pairs", ["pairs"], 3 if ctx.quick else 1, timeout=1500)
     ctx.nontrivial = len({json.dumps(r["case"]["id"]) for r in recs})
     replay_exec(ctx, "helpers", recs, ["interp", "jit", "cl"])
     # direction A: helper events (id, arguments, returned value) of random programs
